@@ -145,6 +145,90 @@ def exec_polyline(case):
     return {"id": case["id"], "given": given, "events": events, "c01": []}
 
 
+def projv(m):
+    def cor(c):
+        el, ad = list(c._elem), list(c._adj)
+        return [[int(el[i]), int(ad[i]) if i < len(ad) else -1] for i in range(len(el))]
+    return {"V": V_of(m.vertices), "C": L_of(m.cells), "F": L_of(m.faces), "E": sorted(sorted(e) for e in L_of(m.edges)),
+            "cc": cor(m.cell_corners), "cf": cor(m.cell_faces), "fc": cor(m.face_corners)}
+
+
+def _c03_case(cid, m, P, family, kinds, rng):
+    import c03
+    g = {"P": P, "C": L_of(m.cells), "F": L_of(m.faces), "E": L_of(m.edges), "nv": len(m.vertices), "sorted": 1, "family": family}
+    events = []
+    for op in kinds:
+        e = {"op": op, "args": [], "ret": [], "exc": ""}
+        try:
+            e["args"], e["ret"], b = c03.query(m, op, g, random.Random(rng.random()))
+            if b is not None:
+                e["b"] = b
+        except Exception as ex:
+            e["exc"] = type(ex).__name__ + ":" + str(ex)[:60]
+        events.append(e)
+    return {"id": cid, "given": g, "events": events}
+
+
+def exec_volume(case):
+    import c03
+    import mouette as M
+    from mouette.mesh.subdivision import VolumeSubdivision
+    g = case["given"]
+    rng = random.Random(hash(case["id"]) & 0xFFFFFF)
+    P = [[int(Fraction(a, b)) for a, b in p] for p in g["V"]]
+    m = c03.build_volume({"P": P, "C": g["C"], "container": "list"})
+    queried = 0
+    if any(ev["op"] == "query_before" for ev in case["events"]):
+        queried = 1
+        for q in ("cell_to_cell", "boundary_faces", "edge_to_cell"):
+            c03.query(m, q, None, rng)
+    before = projv(m)
+    ed = VolumeSubdivision(m)
+    ed.__enter__()
+    events = [{"op": "enter", "exc": ""}]
+    aborted = 0
+    for ev in case["events"]:
+        if ev["op"] not in ("split_cell_as_fan", "split_tet_from_face_center") or aborted:
+            continue
+        e = {"op": ev["op"], "exc": "", "c": 0, "fv": []}
+        try:
+            if ev["op"] == "split_cell_as_fan":
+                e["c"] = ev["k"] % len(ed.mesh.cells)
+                ed.split_cell_as_fan(e["c"])
+            else:
+                # face ids refer to the mesh the editor was opened on (its connectivity is used by the operation)
+                fid = ev["k"] % len(before["F"])
+                e["fv"] = before["F"][fid]
+                ed.split_tet_from_face_center(fid)
+        except Exception as ex:
+            e["exc"] = type(ex).__name__ + ":" + str(ex)[:60]
+            aborted = 1
+        e["V"], e["C"] = V_of(ed.mesh.vertices), L_of(ed.mesh.cells)
+        events.append(e)
+    extra = []
+    if not aborted:
+        x = {"op": "exit", "exc": "", "queried": queried}
+        try:
+            ed.__exit__(None, None, None)
+            res = ed.mesh
+            x["V"], x["C"], x["F"], x["E"] = V_of(res.vertices), L_of(res.cells), L_of(res.faces), L_of(res.edges)
+            x["result_proj"] = projv(res)
+        except Exception as ex:
+            x["exc"] = type(ex).__name__ + ":" + str(ex)[:60]
+            x["V"], x["C"], x["F"], x["E"], x["result_proj"] = [], [], [], [], {}
+            res = None
+        x["input_before"], x["input_after"] = before, projv(m)
+        events.append(x)
+        if res is not None:
+            Pz = [[0, 0, 0]] * len(res.vertices)      # coordinates are not integral any more: orientation clauses are not used
+            kinds = [k for k in c03.ALL_Q if k not in c03.BND_Q]
+            rng.shuffle(kinds)
+            extra.append(_c03_case(case["id"] + "/result", res, Pz, "subdiv-result", kinds, rng))
+            extra.append(_c03_case(case["id"] + "/input", m, Pz, "subdiv-input-after" + ("/queried_before" if queried else "/fresh"),
+                                   ["face_to_cells", "cell_to_face", "boundary_faces", "vertex_to_cell", "edge_to_cell"], rng))
+    return {"id": case["id"], "given": g, "events": events, "c03": extra}
+
+
 def _lattice_coords(rng, n, planar=False):
     seen, out = set(), []
     while len(out) < n:
@@ -228,10 +312,40 @@ def run(ctx):
                        "events": [{"op": "split_edge", "i": rng.randrange(16)} for _ in range(rng.randint(1, 3))]})
     pobs = ctx.execute("c13", "exec_polyline", pcases)
     ctx.judge("C13_Trace", "C13_Trace.cfg", [{k2: c[k2] for k2 in ("id", "given", "events")} for c in pobs], "polyline-split-edge", "c13", "exec_polyline")
+    # volumes
+    import c03
+    r_tet = ctx.model_check("TetEnum", "TetEnum.cfg", "all conforming tetrahedral complexes (<= 6 vertices, <= 3 cells)")
+    tets = [x for x in r_tet.records if x.get("k") == "T" and c03.fans_connected(x["C"])]
+    vcases = []
+    pool = [(x["nv"], [list(c) for c in x["C"]]) for x in tets]
+    for dims in ((1, 1, 1), (2, 1, 1)):
+        Pk, Ck = c03.kuhn(rng, *dims)
+        pool.append((len(Pk), Ck, Pk))
+    for i in range(400 if thorough else 80):
+        item = pool[i % len(pool)]
+        nv_, C = item[0], item[1]
+        P = item[2] if len(item) > 2 else c03._coords(rng, nv_, C)
+        ops = [{"op": rng.choice(["split_cell_as_fan", "split_tet_from_face_center"]), "k": rng.randrange(64)} for _ in range(rng.randint(1, 2))]
+        # a second face split would use face ids / connectivity of the mesh before the block: keep at most one per block
+        seen_face = False
+        ops2 = []
+        for o in ops:
+            if o["op"] == "split_tet_from_face_center":
+                if seen_face or ops2:
+                    continue
+                seen_face = True
+            ops2.append(o)
+        vcases.append({"id": "vol-%d" % i, "given": {"V": [[[c, 1] for c in p] for p in P], "C": C, "family": "volume"},
+                       "events": ([{"op": "query_before"}] if i % 2 else []) + ops2})
+    vobs = ctx.execute("c13", "exec_volume", vcases, chunksize=8)
+    ctx.judge("C13V_Trace", "C13V_Trace.cfg", [{k2: c[k2] for k2 in ("id", "given", "events")} for c in vobs], "volume-blocks", "c13", "exec_volume", batch_events=600)
+    c03cases = [x for c in vobs for x in c["c03"]]
+    ctx.judge("C03_Trace", "C03_Trace.cfg", [c for c in c03cases if c["id"].endswith("/result")], "volume-connectivity-of-result", batch_events=800)
+    ctx.judge("C03_Trace", "C03_Trace.cfg", [c for c in c03cases if c["id"].endswith("/input")], "volume-connectivity-of-input-object-after", batch_events=800)
     ctx.exhaustive = False
     ctx.assumptions += [
         "total area is judged through the exact vector-area functional (embedding independent; equals the total area on planar consistently oriented meshes)",
         "new-vertex positions are judged when the operation is applied to an all-triangle mesh (or is a fan/triangulation); after an implicit triangulation only counts, topology, area and old vertices are judged",
         "embeddings are random distinct lattice points (and planar lattice grids); non-manifold inputs are skipped",
-        "volume operations (split_cell_as_fan, split_tet_from_face_center) are covered by the volume part once C03's TetCore is available",
+        "volume blocks: split_cell_as_fan (any cell, also repeatedly) and at most one split_tet_from_face_center per block (it addresses faces and connectivity of the mesh the editor was opened on)",
     ]
